@@ -4,6 +4,7 @@ package main
 // functions in-process, and the report of the partial-operation sweep (harness/c14ops.go).
 
 import (
+	"context"
 	"fmt"
 	"os"
 	"os/exec"
@@ -13,9 +14,11 @@ import (
 	"strconv"
 	"strings"
 	"sync"
+	"sync/atomic"
 	"time"
 
 	"github.com/elliotchance/gedcom/v39"
+	"github.com/elliotchance/gedcom/v39/q"
 )
 
 func c14hx(s string) string { return "h" + hexs(s) }
@@ -514,4 +517,83 @@ func c14OpsReachRuns(c *Ctx, tmp string, runs *[]*c14Run) {
 	add("usage", "")
 	add("usage", "", "no-such-command")
 	add("usage", "", "version")
+}
+
+// ---------------------------------------------------------------------------------------------
+// q's MergeDocumentsAndIndividuals history in one engine, in a child process (gvh worker c14merge):
+// the comparison behind it runs in goroutines of the library; a panic there ends the process.
+
+func c14MergeHistory(text, okText string) string {
+	return c14WithTimeout(20*time.Second, func() string {
+		engine, err := q.NewParser().ParseString("MergeDocumentsAndIndividuals(Document1, Document2)")
+		if err != nil {
+			return "parse error"
+		}
+		d1, _ := gedcom.NewDocumentFromString(text)
+		d2, _ := gedcom.NewDocumentFromString(okText)
+		str := func(v interface{}, err error) string {
+			if err != nil {
+				return "error"
+			}
+			if g, ok := v.(gedcom.GEDCOMStringer); ok {
+				return g.GEDCOMString(0)
+			}
+			return fmt.Sprint(v)
+		}
+		first := str(engine.Evaluate([]*gedcom.Document{d1, d2}))
+		second := str(engine.Evaluate([]*gedcom.Document{d1, d2}))
+		str(engine.Evaluate([]*gedcom.Document{d1, d1}))
+		str(engine.Evaluate([]*gedcom.Document{d2, d1}))
+		return fmt.Sprintf("again-equal=%v", first == second)
+	})
+}
+
+var c14MergeSeq int64
+
+// c14MergeHistoryChild returns the observation ("again-equal=…", "panic", "timeout", …) and, for a
+// panic, its first line and first frame inside the repository.
+func c14MergeHistoryChild(tmp, text, okText string) (obs, detail string) {
+	exe, err := os.Executable()
+	if err != nil {
+		return c14MergeHistory(text, okText), ""
+	}
+	n := atomic.AddInt64(&c14MergeSeq, 1)
+	f1 := filepath.Join(tmp, fmt.Sprintf("merge-%d-a.ged", n))
+	f2 := filepath.Join(tmp, fmt.Sprintf("merge-%d-b.ged", n))
+	os.WriteFile(f1, []byte(text), 0o644)
+	os.WriteFile(f2, []byte(okText), 0o644)
+	defer os.Remove(f1)
+	defer os.Remove(f2)
+	ctx, cancel := context.WithTimeout(context.Background(), 40*time.Second)
+	defer cancel()
+	cmd := exec.CommandContext(ctx, exe, "worker", "c14merge", f1, f2)
+	cmd.Env = append(os.Environ(), "GOTRACEBACK=all")
+	var stderr strings.Builder
+	cmd.Stderr = &stderr
+	out, runErr := cmd.Output()
+	class, det := c14Classify(runErr, ctx.Err() == context.DeadlineExceeded, stderr.String())
+	switch class {
+	case "output":
+		return strings.TrimSpace(string(out)), ""
+	case "timeout":
+		return "timeout", det
+	case "panic", "fatal":
+		return "panic", det
+	}
+	return "panic", class + ": " + det
+}
+
+func init() {
+	workers["c14merge"] = func(args []string) int {
+		if len(args) != 2 {
+			return 2
+		}
+		a, err1 := os.ReadFile(args[0])
+		b, err2 := os.ReadFile(args[1])
+		if err1 != nil || err2 != nil {
+			return 2
+		}
+		fmt.Println(c14MergeHistory(string(a), string(b)))
+		return 0
+	}
 }
